@@ -341,6 +341,8 @@ def reference(cfg: dict, obs: dict) -> tuple[list[tuple], bytes, dict]:
                 if what == "item" and (cfg.get("mrs") or not (st["n"] > 0 and avail[st["n"] - 1][1] == w_seq)):
                     # its bytes were in the transport, not yet in the server's parser: fetching them needs a checkpoint
                     notes["zero-tau-transport"] += 1
+                    if seen == "timeout":
+                        notes["zero-tau-transport-timed-out"] = notes.get("zero-tau-transport-timed-out", 0) + 1
                     return seen if seen in ("item", "timeout") else "item"
                 if what == "exit":
                     return seen if seen in ("exit", "timeout") else "exit"
@@ -656,7 +658,7 @@ def run_job(job: dict) -> JobResult:
             sym, msg, notes = oracle(cfg, obs)
             if sym is None:
                 res.outcome(f"{fam}:ended-" + notes.get("ended", "?"))
-                for k in ("near-deadline", "reset-truncated", "zero-tau-transport"):
+                for k in ("near-deadline", "reset-truncated", "zero-tau-transport", "zero-tau-transport-timed-out"):
                     if notes.get(k):
                         res.count(k, notes[k])
                 ntimeouts = sum(1 for e in obs["log"] if e[0] == "timeout")
